@@ -79,8 +79,9 @@ pub fn decode_msg(
                 mon: MonSnap::none(),
             }
         }),
-        ReaderCfg::Slice => {
+        ReaderCfg::Slice | ReaderCfg::Reentrant { .. } => {
             let mon = Monitor::new(step_budget(b.len()), keep_log);
+            let slot = arm_reentry(&mon, rcfg);
             let m2 = mon.clone();
             let r = guard(move || {
                 let mut r = SimSlice::new(b, m2);
@@ -91,6 +92,7 @@ pub fn decode_msg(
                 let out = res.map(|m| from_crate_msg(&m));
                 (out, quiet_len(&r))
             });
+            settle_reentry(&mon, rcfg, slot);
             r.map(|(result, remaining)| MsgOut {
                 result,
                 remaining,
@@ -146,14 +148,16 @@ pub fn decode_avps(b: &[u8], rcfg: &ReaderCfg, keep_log: bool) -> Result<AvpsOut
                 mon: MonSnap::none(),
             }
         }),
-        ReaderCfg::Slice => {
+        ReaderCfg::Slice | ReaderCfg::Reentrant { .. } => {
             let mon = Monitor::new(step_budget(b.len()), keep_log);
+            let slot = arm_reentry(&mon, rcfg);
             let m2 = mon.clone();
             let r = guard(move || {
                 let mut r = SimSlice::new(b, m2);
                 let v = AVP::try_read_greedy::<&[u8]>(&mut r);
                 (conv(v), quiet_len(&r))
             });
+            settle_reentry(&mon, rcfg, slot);
             r.map(|(items, remaining)| AvpsOut {
                 items,
                 remaining,
@@ -177,6 +181,206 @@ pub fn decode_avps(b: &[u8], rcfg: &ReaderCfg, keep_log: bool) -> Result<AvpsOut
                 remaining,
                 mon: MonSnap::take(&mon),
             })
+        }
+    }
+}
+
+// ---------------------------------------------------------------------------
+// Re-entrant readers
+// ---------------------------------------------------------------------------
+
+type NestedSlot = std::rc::Rc<std::cell::RefCell<Option<(String, Vec<String>)>>>;
+
+/// Arm the monitor so that the `at`-th reader call performs the nested use
+/// of the library before it is served.
+pub fn arm_reentry(mon: &std::rc::Rc<std::cell::RefCell<Monitor>>, rcfg: &ReaderCfg) -> Option<NestedSlot> {
+    if let ReaderCfg::Reentrant { at, nested } = rcfg {
+        let slot: NestedSlot = Default::default();
+        let s2 = slot.clone();
+        let n2 = nested.clone();
+        let mut m = mon.borrow_mut();
+        // the nested use may add a few calls' worth of work of its own
+        m.reentry = Some((
+            (*at).max(1) as u64,
+            Box::new(move || {
+                *s2.borrow_mut() = Some(run_nested(&n2));
+            }),
+        ));
+        Some(slot)
+    } else {
+        None
+    }
+}
+
+/// After the outer call: the nested use must have behaved exactly as it does
+/// on its own (same result, no request outside its input). Anything else is
+/// recorded with the outer monitor's violations.
+pub fn settle_reentry(mon: &std::rc::Rc<std::cell::RefCell<Monitor>>, rcfg: &ReaderCfg, slot: Option<NestedSlot>) {
+    let (slot, nested) = match (slot, rcfg) {
+        (Some(s), ReaderCfg::Reentrant { nested, .. }) => (s, nested),
+        _ => return,
+    };
+    mon.borrow_mut().reentry = None;
+    let inside = match slot.borrow_mut().take() {
+        Some(x) => x,
+        None => return, // the outer call made fewer requests
+    };
+    let alone = run_nested(nested);
+    let mut m = mon.borrow_mut();
+    for v in inside.1 {
+        if m.violations.len() < 8 {
+            m.violations.push(format!("nested use of the library from inside a reader call: {v}"));
+        }
+    }
+    if inside.0 != alone.0 && m.violations.len() < 8 {
+        m.violations.push(format!(
+            "nested use of the library from inside a reader call returned {} but {} on its own ({:?})",
+            cut(&inside.0),
+            cut(&alone.0),
+            nested
+        ));
+    }
+}
+
+fn cut(s: &str) -> String {
+    if s.len() > 200 {
+        format!("{}...", &s[..200])
+    } else {
+        s.to_string()
+    }
+}
+
+/// Perform a nested use of the library; returns its result as text and the
+/// precondition violations of its own reader.
+pub fn run_nested(n: &Nested) -> (String, Vec<String>) {
+    use rl2tp::avp::types as t;
+    fn avp_text(r: Result<Result<AVP, DecodeError>, Caught>) -> String {
+        match r {
+            Ok(Ok(a)) => serde_json::to_string(&from_crate_avp(&a)).unwrap_or_default(),
+            Ok(Err(e)) => format!("Err{}", errs_text(std::slice::from_ref(&e))),
+            Err(c) => c.text(),
+        }
+    }
+    match n {
+        Nested::Decode { bytes, opts } => {
+            let o = opts.map(Opts::from_index);
+            match decode_msg(bytes, o, &ReaderCfg::Slice, false) {
+                Ok(out) => (format!("{} rem {}", result_text(&out.result), out.remaining), out.mon.violations),
+                Err(c) => (c.text(), Vec::new()),
+            }
+        }
+        Nested::Greedy { bytes } => match decode_avps(bytes, &ReaderCfg::Slice, false) {
+            Ok(out) => {
+                let items: Vec<String> = out
+                    .items
+                    .iter()
+                    .map(|x| match x {
+                        Ok(a) => serde_json::to_string(a).unwrap_or_default(),
+                        Err(e) => errs_text(std::slice::from_ref(e)),
+                    })
+                    .collect();
+                (format!("{:?} rem {}", items, out.remaining), out.mon.violations)
+            }
+            Err(c) => (c.text(), Vec::new()),
+        },
+        Nested::Reveal { attr, value, secret, rv } => {
+            let h = AVP::Hidden(t::Hidden {
+                attribute_type: *attr,
+                value: value.clone(),
+            });
+            let rvv = t::RandomVector::from(*rv);
+            (avp_text(guard(|| h.reveal(secret, &rvv))), Vec::new())
+        }
+        Nested::TypeRead { attr, payload } => {
+            let mon = Monitor::new(step_budget(payload.len()), false);
+            let m2 = mon.clone();
+            let attr = *attr;
+            let r = guard(move || {
+                let mut r = SimSlice::new(payload, m2);
+                match attr {
+                    0 => t::MessageType::try_read(&mut r).map(AVP::MessageType),
+                    1 => t::ResultCode::try_read(&mut r).map(AVP::ResultCode),
+                    2 => t::ProtocolVersion::try_read(&mut r).map(AVP::ProtocolVersion),
+                    6 => t::FirmwareRevision::try_read(&mut r).map(AVP::FirmwareRevision),
+                    7 => t::HostName::try_read(&mut r).map(AVP::HostName),
+                    8 => t::VendorName::try_read(&mut r).map(AVP::VendorName),
+                    9 => t::AssignedTunnelId::try_read(&mut r).map(AVP::AssignedTunnelId),
+                    10 => t::ReceiveWindowSize::try_read(&mut r).map(AVP::ReceiveWindowSize),
+                    14 => t::AssignedSessionId::try_read(&mut r).map(AVP::AssignedSessionId),
+                    15 => t::CallSerialNumber::try_read(&mut r).map(AVP::CallSerialNumber),
+                    _ => t::TieBreaker::try_read(&mut r).map(AVP::TieBreaker),
+                }
+            });
+            let v = std::mem::take(&mut mon.borrow_mut().violations);
+            (avp_text(r), v)
+        }
+    }
+}
+
+/// A nested use for a re-entrant reader.
+pub fn draw_nested(rng: &mut crate::rng::Rng) -> Nested {
+    const TWO_OCTET: [u16; 6] = [0, 2, 6, 9, 10, 14];
+    match rng.below(10) {
+        0..=3 => {
+            // a small control or data message under some option set; the
+            // header bits the options look at are set now and then
+            let mut b = if rng.chance(3, 4) {
+                spec_encode(&SpecMessage::Control {
+                    length: 0,
+                    tunnel_id: rng.u16(),
+                    session_id: rng.u16(),
+                    ns: rng.u16(),
+                    nr: rng.u16(),
+                    avps: vec![
+                        SpecAvp { attr: 0, val: Val::Code(*rng.pick(&[1u16, 2, 3, 4, 6])) },
+                        SpecAvp { attr: 9, val: Val::U16(rng.u16()) },
+                    ],
+                })
+            } else {
+                let mut d = vec![0x00, 0x02, 0, 9, 0, 3];
+                d.extend_from_slice(&rng.bytes(5));
+                d
+            };
+            match rng.below(5) {
+                0 => b[0] |= 0x80,
+                1 => b[0] |= 0x40,
+                2 => b[1] = (b[1] & 0xF0) | 3,
+                3 => b[1] = (b[1] & 0x0F) | 0x30,
+                _ => {}
+            }
+            let opts = if rng.chance(1, 5) { None } else { Some(rng.below(8) as u8) };
+            Nested::Decode { bytes: b, opts }
+        }
+        4 | 5 => {
+            // short records of the fixed-size kinds: payloads of 0-3 octets
+            let mut b = Vec::new();
+            for _ in 0..rng.urange(1, 3) {
+                let n = rng.urange(0, 3);
+                b.extend_from_slice(&crate::records::raw_record(AVP_M, 0, *rng.pick(&TWO_OCTET), &rng.bytes(n)));
+            }
+            Nested::Greedy { bytes: b }
+        }
+        6 | 7 => {
+            // hidden AVP of a fixed-size kind whose recovered payload has 0-3 octets
+            let attr = *rng.pick(&TWO_OCTET);
+            let n = rng.urange(0, 3);
+            let payload = rng.bytes(n);
+            let sl = rng.urange(1, 20);
+            let secret = rng.bytes(sl);
+            let rvb = rng.bytes(4);
+            let rv = [rvb[0], rvb[1], rvb[2], rvb[3]];
+            let ll = rng.urange(0, 9);
+            let lp = rng.bytes(ll);
+            let conv = if rng.bool() { LenConv::Whole } else { LenConv::Value };
+            let value = spec_hide(attr, &payload, &secret, &rv, &lp, &[0x5A; 16], conv).unwrap_or_default();
+            Nested::Reveal { attr, value, secret, rv }
+        }
+        _ => {
+            let n = rng.urange(0, 3);
+            Nested::TypeRead {
+                attr: *rng.pick(&[0u16, 2, 6, 9, 10, 14, 1, 7, 8, 15, 5]),
+                payload: rng.bytes(n),
+            }
         }
     }
 }
@@ -231,6 +435,14 @@ pub fn result_text(r: &Result<SpecMessage, Vec<DecodeError>>) -> String {
 
 /// A random reader configuration for a buffer of `len` octets.
 pub fn draw_reader(rng: &mut crate::rng::Rng, len: usize) -> ReaderCfg {
+    if rng.chance(1, 12) {
+        // mostly during the first requests (flags, header), sometimes later
+        let at = if rng.chance(2, 3) { rng.range(1, 6) } else { rng.range(1, 40) } as u32;
+        return ReaderCfg::Reentrant {
+            at,
+            nested: draw_nested(rng),
+        };
+    }
     match rng.below(4) {
         0 => ReaderCfg::Slice,
         1 => ReaderCfg::Owned,
